@@ -219,6 +219,83 @@ CONFIG["C01"] = {
                 "the bridge from the converted trie key to the segment-wise reading of a template (Spec `instantiates`) is checked per case by the driver, not yet a theorem"],
 }
 
+CONFIG['C02'] = {'assumptions': ['scheme names are non-empty (a requirement object with the single key "" would be taken for the empty alternative by '
+                 'buildAuthenticators; not generated)',
+                 'principals are nil or non-nil strings (a typed nil pointer inside a non-nil interface counts as non-nil in Go)',
+                 'error codes served are in 100..999 (net/http panics on other WriteHeader codes)',
+                 'one Context.Authorize per MatchedRoute, as newSecureAPI does (a failed alternative leaves route.Authenticator set; calling '
+                 'Authorize, ignoring its error and then entering the secured handler with the same route is outside the model)'],
+ 'go_entry': 'middleware.NewContext + Context.APIHandler (newSecureAPI, buildAuthenticators, RouteAuthenticator(s).Authenticate), Context.Authorize, '
+             'security.APIKeyAuth',
+ 'model_fn': 'build / authSchemes / authAll / authorizeFresh / authorizeAgain / secure',
+ 'partial': [],
+ 'quick_n': 30000,
+ 'rule': 'generated swagger 2.0 documents: securityDefinitions (2-5 apiKey schemes, some undefined), global and/or per-operation `security` (absent, '
+         '`[]`, 1-4 alternatives, the empty alternative, 1-3 schemes per alternative, 0-2 scopes per scheme, repeated schemes across alternatives), '
+         'authenticators registered for a generated subset; per scheme one of not-applicable / accepted principal / accepted nil principal / '
+         "rejected with coded or plain error, carried by the request's X-K-<name> header through security.APIKeyAuth; authorizer absent / accepting "
+         '/ denying all / denying one principal / denying the nil principal, with plain or coded error; request good / undecodable body / '
+         'unsupported content type / missing required query parameter. The order of the schemes inside every alternative is read from '
+         'MatchedRoute.Authenticators[i].Schemes after the router is built (Go map order, differs from run to run) and given to the model. Per case: '
+         'one request through Context.APIHandler (status, error message, handler ran, consumer calls, authenticators consulted in order with the '
+         "scopes they were handed) and two direct Context.Authorize calls (principal, scopes from the returned request's context, error, call logs). "
+         'thorough tier adds an exhaustive enumeration of outcome vectors over fixed structures. A case is trivial (~nosec) when the operation ends '
+         'up with no requirement.',
+ 'search_s': 60,
+ 'thorough_n': 150000,
+ 'thorough_seeds': 3,
+ 'trusted_base': ['reading of the property text into the Lean `Spec` (human step, RtVerif/Model/<id>.lean)',
+                  'correspondence check (differential: Go harness /verif/harness -> protocol lines -> compiled Lean driver rtdriver evaluating Model '
+                  'and Spec); coverage bounded by the generators',
+                  "factgen (go/ast extraction of constants/tables into RtVerif/Gen/Facts.lean) and the driver's line parser",
+                  'errors.ServeError status mapping (errors.Error -> its code, >= 600 -> 422, anything else -> 500) and errors.Unauthenticated (401) '
+                  'are hand-modelled (`statusOf`, `unauthenticated`)',
+                  'analysis.SecurityRequirementsFor / SecurityDefinitionsForRequirements and untyped.API.AuthenticatorsFor are modelled by '
+                  '`effective`/`mkReq` (an authenticator is attached iff the scheme is defined and registered); checked per case against the built '
+                  'MatchedRoute.Authenticators',
+                  "what happens after security lets a request through (binding, validation, handler, response) is a 4-row table for the harness' "
+                  'fixed operation (`downstream`); binding belongs to C03/C06',
+                  'authenticators and the authorizer are deterministic functions of (scheme, required scopes) resp. principal for the duration of '
+                  'one request']}
+
+CONFIG['C08'] = {'assumptions': ['ASCII-only media types and realms (strings.ToLower / EqualFold / %q are modelled for ASCII); realms are printable ASCII',
+                 'operations protected by at most one security requirement consisting of one basic scheme, no Authorizer; requests without body or '
+                 'parameters',
+                 'registry keys are distinct after lower-casing'],
+ 'go_entry': 'middleware.Context.APIHandler(...).ServeHTTP (stream A), middleware.Context.Respond after security.BasicAuthRealm(...).Authenticate '
+             'and Context.ResponseFormat (stream R)',
+ 'model_fn': 'serve / respond (respondResponder, respondError, respondPlainNoOp, respondPlainOp, basicMarker, authorize, routeProduces)',
+ 'partial': [],
+ 'quick_n': 30000,
+ 'rule': 'in-memory one-operation specs (loads.Analyzed + untyped.NewAPI + Context.APIHandler): API default produces (JSON / empty / text / with '
+         'parameters / other case) x registry of 0-5 REAL producers (JSON, Text, ByteStream, XML) wrapped to record key and value x operation '
+         "produces (0-3 entries from 5 types, parameters '; charset=utf-8' etc., duplicates; 1 in 20 cases with malformed entries: other case, "
+         'trailing blank, no slash, wildcard) x declared responses (lowest 2xx incl. 204, several codes, non-2xx only, default only) x '
+         'GET/HEAD/DELETE/POST/PUT x Accept (absent, matching, wildcard, non-matching, q-values, several lines, C07 grammar noise) x handler outcome '
+         '(6 plain values incl. nil, custom Responder, error+Responder, middleware.Error codes incl. 0, NotImplemented, errors.New of 9 codes incl. '
+         '>= 600, composite, plain Go error) x basic-auth (unprotected / protected; credentials absent, other scheme, undecodable, present; callback '
+         'principal / (nil,nil) / 401 / 403 / plain error; 7 realms incl. empty, quotes and backslash). Stream A (2/3) goes through the real '
+         "handler; stream R (1/3) calls Context.Respond directly with the router's route (also without Operation, or no route with free produces), "
+         'an optional memoised format and the real authenticator run first. A case is non-trivial unless the negotiated type has no producer for the '
+         'operation (the Spec is silent there). distinct = distinct input lines.',
+ 'search_s': 60,
+ 'thorough_n': 100000,
+ 'thorough_seeds': 4,
+ 'trusted_base': ['reading of the property text into the Lean `Spec` (human step, RtVerif/Model/<id>.lean)',
+                  'correspondence check (differential: Go harness /verif/harness -> protocol lines -> compiled Lean driver rtdriver evaluating Model '
+                  'and Spec); coverage bounded by the generators',
+                  "factgen (go/ast extraction of constants/tables into RtVerif/Gen/Facts.lean) and the driver's line parser",
+                  'go-openapi/errors.ServeError (external): status = code (>= 600 -> 422), 500 for other errors, JSON content type; modelled for the '
+                  'status, compared per case; its body is taken from a reference call in the harness',
+                  'go-openapi/spec Operation.SuccessResponse (external): modelled as the lowest declared 2xx code, compared per case with the real '
+                  'call',
+                  'go-openapi/analysis ProducesFor (external): returns the distinct produces in Go map order; route.Produces is therefore observed '
+                  "per case and checked to be the router's default-appending applied to some ordering of the distinct produces",
+                  'what each real producer writes for the value is observed per case by running it on a buffer (the model identifies producers by '
+                  'registry key)',
+                  'net/http: Header.Set/Get, Request.BasicAuth, WriteHeader-once semantics of the recording ResponseWriter; fmt %q modelled for '
+                  'printable ASCII']}
+
 # properties not claimed (with the reason) and hook commits in /repo (none so far: no hooks needed)
 NOT_APPLICABLE = {}
 HOOK_COMMITS = []
